@@ -370,6 +370,8 @@ func (x *Exec) alloc(st *State) string {
 	x.needFreshNow()
 	n := x.sc.fresh("ref")
 	x.sc.emit("(define-fun %s () Int (+ %s 1))", n, st.allocTop)
+	// fewer than 2^62 objects are ever allocated (object identities fit machine words)
+	x.sc.emit("(assert (< %s 4611686018427387904))", n)
 	st.allocTop = n
 	return n
 }
